@@ -167,36 +167,47 @@ func genPartUpdates(s *sim.Sim) (updates []memberlist.Mergeable, ref *ring.Parti
 	np := s.Range(1, 3, "partitions")
 	for p := int32(0); p < int32(np); p++ {
 		tokens := []uint32{uint32(p*10 + 1), uint32(p*10 + 2)}
-		n := s.Range(1, 4, "versions")
-		sts, lts := int64(1), int64(0)
-		cur := ring.PartitionDesc{Id: p, Tokens: tokens, State: ring.PartitionPending, StateTimestamp: sts}
-		for v := 0; v < n; v++ {
-			if v > 0 {
-				switch s.Choose(3, "what") {
-				case 0: // state change
-					sts += int64(s.Range(1, 2, "ts-step"))
-					cur.State = []ring.PartitionState{ring.PartitionPending, ring.PartitionActive, ring.PartitionInactive, ring.PartitionDeleted}[s.Choose(4, "pstate")]
-					cur.StateTimestamp = sts
-				case 1: // lock change
-					lts = maxI(lts, 0) + int64(s.Range(1, 2, "ts-step"))
-					cur.StateChangeLocked = !cur.StateChangeLocked
-					cur.StateChangeLockedTimestamp = lts
-				case 2: // both in one update
-					sts += int64(s.Range(1, 2, "ts-step"))
-					lts = maxI(lts, 0) + int64(s.Range(1, 2, "ts-step"))
-					cur.State = []ring.PartitionState{ring.PartitionActive, ring.PartitionInactive, ring.PartitionDeleted}[s.Choose(3, "pstate")]
-					cur.StateTimestamp = sts
-					cur.StateChangeLocked = !cur.StateChangeLocked
-					cur.StateChangeLockedTimestamp = lts
-				}
+		// the state and the state-change lock of a partition are two last-writer-wins registers with their own
+		// timestamps; they may be written on different nodes, so an update may combine any version of the one
+		// with any version of the other (a writer publishes what it has seen of both)
+		type stateV struct {
+			st ring.PartitionState
+			ts int64
+		}
+		type lockV struct {
+			locked bool
+			ts     int64
+		}
+		states := []stateV{{ring.PartitionPending, 1}}
+		for v, n := 0, s.Range(0, 3, "state-versions"); v < n; v++ {
+			last := states[len(states)-1]
+			st := []ring.PartitionState{ring.PartitionPending, ring.PartitionActive, ring.PartitionInactive, ring.PartitionDeleted}[s.Choose(4, "pstate")]
+			ts := last.ts + int64(s.Range(1, 2, "ts-step"))
+			if st == ring.PartitionDeleted && last.st != ring.PartitionDeleted && s.Chance(0.4, "removed-in-the-same-second") {
+				ts = last.ts // at equal timestamps a removal wins
 			}
-			ref.Partitions[p] = cur
+			states = append(states, stateV{st, ts})
+		}
+		locks := []lockV{{false, 0}}
+		for v, n := 0, s.Range(0, 3, "lock-versions"); v < n; v++ {
+			last := locks[len(locks)-1]
+			locks = append(locks, lockV{!last.locked, last.ts + int64(s.Range(1, 2, "ts-step"))})
+		}
+		mk := func(i, j int) ring.PartitionDesc {
+			return ring.PartitionDesc{Id: p, Tokens: append([]uint32(nil), tokens...), State: states[i].st, StateTimestamp: states[i].ts, StateChangeLocked: locks[j].locked, StateChangeLockedTimestamp: locks[j].ts}
+		}
+		emit := func(i, j int) {
 			d := ring.NewPartitionRingDesc()
-			c := cur
-			c.Tokens = append([]uint32(nil), tokens...)
-			d.Partitions[p] = c
+			d.Partitions[p] = mk(i, j)
 			updates = append(updates, d)
 		}
+		for i := range states {
+			emit(i, s.Choose(len(locks), "lock-seen"))
+		}
+		for j := range locks {
+			emit(s.Choose(len(states), "state-seen"), j)
+		}
+		ref.Partitions[p] = mk(len(states)-1, len(locks)-1)
 	}
 	no := s.Range(0, 2, "owners")
 	for o := 0; o < no; o++ {
